@@ -38,9 +38,10 @@ class DocstringSchemaExtractor(BaseSchemaExtractor):
 
                 parameters_schema[param.arg_name] = {
                     'title': param.arg_name.capitalize(),
-                    'description': param.description if param.description is not None else UNSET,
                     'type': param.type_name,
                 }
+                if param.description is not None:
+                    parameters_schema[param.arg_name]['description'] = param.description
 
         return parameters_schema, {}
 
@@ -70,8 +71,9 @@ class DocstringSchemaExtractor(BaseSchemaExtractor):
                 result_schema = {
                     'type': doc.returns.type_name,
                     'title': 'Result',
-                    'description': doc.returns.description if doc.returns.description is not None else UNSET,
                 }
+                if doc.returns.description is not None:
+                    result_schema['description'] = doc.returns.description
 
         return result_schema, {}
 
